@@ -177,6 +177,10 @@ def _record(el, nsmaps):
         if curi is None:
             raise XmlSpecViolation("attribute element without namespace")
         attrs.append((curi + clocal, _value(ch, cmap)))
+    etype = el.get("{%s}type" % XSI)
+    if etype is not None:
+        # PROV-XML: xsi:type on a record element asserts that prov:type
+        attrs.append((PROV + "type", ("qname", _resolve(etype, nsmap, "xsi:type"))))
     if subtype is not None:
         attrs.append((PROV + "type", ("qname", PROV + subtype)))
     return (PROV + kind, ident, attrs)
